@@ -113,7 +113,7 @@ func EncryptStreamTo[E typez.StrOrBytes](out io.Writer, stream io.Reader, secret
 func DecryptStreamTo[E typez.StrOrBytes](out io.Writer, stream io.Reader, secret E) error {
 	saltHeader := make([]byte, aes.BlockSize)
 
-	n, err := stream.Read(saltHeader)
+	n, err := io.ReadFull(stream, saltHeader)
 	if err != nil {
 		return fmt.Errorf("read header error: %w", err)
 	}
